@@ -56,6 +56,11 @@ CHECKS = {
             "50-value pool, all arrays over 4 strings up to length 6 through five sort entry points (incl. <loop sort=>), "
             "both directions.",
             "longer strings and larger arrays are sampled", "3/C15"),
+    "C19": ("model-based runtime monitor (independent reference integer after every step + offline python-int replay of the operation log), UBSan bounds on the fixed storage, exhaustive 8-bit helper",
+            "Histories over 14 instantiations with boundary-biased operands, compared word for word after every step; the "
+            "operation log of the first histories is replayed with python's exact int (history checker); "
+            "DoubleSize<u8> multiply/divide enumerated completely, wider helpers against native wide arithmetic.",
+            "operands and histories are sampled except for the 8-bit helper", "3/C19"),
 }
 
 PENDING = {}
